@@ -307,6 +307,9 @@ SRCTIE = {
                                               "RevPrefixIter", "RevPrefixIter.new"]),
     "Grenad.SrcTie.SorterInsert": ("SrcSorter", ["EntryBound", "EntryBoundAlignedBuffer", "EntryBoundAlignedBuffer.deref", "Entries", "Entries.remaining", "Entries.entry_size", "Entries.fits",
                                                   "Entries.memory_usage", "Sorter", "Sorter.threshold_exceeded", "Entries.insert", "Sorter.write_chunk", "Sorter.merge_chunks", "Sorter.insert"]),
+    "Grenad.SrcTie.SorterBuilder": ("SrcSorter", ["INITIAL_SORTER_VEC_SIZE", "DEFAULT_SORTER_MEMORY", "MIN_SORTER_MEMORY", "DEFAULT_NB_CHUNKS", "MIN_NB_CHUNKS",
+                                                   "SorterBuilder", "SorterBuilder.new", "SorterBuilder.dump_threshold", "SorterBuilder.allow_realloc",
+                                                   "SorterBuilder.max_nb_chunks", "SorterBuilder.build", "Entries.with_capacity", "Sorter", "Entries"]),
     "Grenad.SrcTie.Compression": ("SrcCompression", ["CompressionType", "compress", "decompress"]),
     "Grenad.SrcTie.MergerIter": ("SrcMerger,SrcMergerIter", ["Entry", "Entry.cmp", "MergerIter", "MergerIter.next", "Merger", "Merger.into_stream_merger_iter"]),
     "Grenad.SrcTie.MergerIterNext": ("SrcMerger,SrcMergerIter", ["Entry", "Entry.cmp", "MergerIter", "MergerIter.next", "Merger", "Merger.into_stream_merger_iter"]),
@@ -322,7 +325,7 @@ for _p, _mods in {"C14": ["Varint", "Block", "C14Src"], "C13": ["Meta", "C13Src"
                   "C01": ["BlockWriter", "Varint", "Meta", "Block", "BlockCursor", "TBlockSrc", "BuiltSrc", "NoPanic", "EndToEnd", "BlockLoad", "WriterBlock", "WriterLemmas", "WriterCut", "WriterInsert", "WriterFinish", "WriterRun", "WriterBounds", "WriterBuild", "Compression", "ReaderCursorTie", "ReaderCursorTieStep", "ReaderE2E", "ReaderE2EIdx", "ReaderE2EGen", "ReaderE2ESmoke"],
                   "C02": ["BlockCursor", "Smoke", "TBlockSrc", "NoPanic", "IndexCursorLoad", "IndexCursorIter", "IndexCursor", "ReaderCursorTie", "ReaderCursorTieStep", "ReaderE2E", "ReaderE2EIdx", "ReaderE2EGen"],
                   "C03": ["IndexCursorLoad", "IndexCursorInit", "IndexCursorIter", "IndexCursorRec", "IndexCursor", "IndexCursorSmoke", "ReaderCursorTie", "ReaderCursorTieStep", "ReaderE2E", "ReaderE2EIdx", "ReaderE2EGen", "ReaderE2ESmoke"],
-                  "C16": ["IndexCursorLoad", "IndexCursorInit", "IndexCursorIter", "IndexCursorRec", "IndexCursor", "ReaderCursorTie", "ReaderCursorTieStep"], "C06": ["Merger", "MergerIter", "MergerIterNext", "MergerIterStep", "MergerIterRun"], "C11": ["CountWrite"], "C08": ["Sorter", "SorterInsert"], "C07": ["Sorter", "SorterInsert"]}.items():
+                  "C16": ["IndexCursorLoad", "IndexCursorInit", "IndexCursorIter", "IndexCursorRec", "IndexCursor", "ReaderCursorTie", "ReaderCursorTieStep"], "C06": ["Merger", "MergerIter", "MergerIterNext", "MergerIterStep", "MergerIterRun"], "C11": ["CountWrite"], "C08": ["Sorter", "SorterInsert", "SorterBuilder"], "C07": ["Sorter", "SorterInsert"]}.items():
     PROPS[_p]["srctie"] = ["Grenad.SrcTie." + m for m in _mods]
 
 
